@@ -895,6 +895,6 @@ func scenarios1(prop string) []d1x.Scenario {
 
 func TestCheck(t *testing.T) {
 	vlib.Main(t, "C06", func(c *vlib.Ctx) {
-		d1x.Run(t, c, scenarios(c.Prop, c.Thorough()))
+		d1x.Run(t, c, scenarios(c.Dispatch(), c.Thorough()))
 	})
 }
